@@ -52,7 +52,7 @@ void PG::mutate_ops(int n, const Pool& pool) {
 			case 4: case 5: push(mk(client, "et_final", {h, r.pick(st)})); break;
 			case 6: { TA t; int k = r.range(0, 3); for (int j = 0; j < k; ++j) t.finals.insert(r.pick(st)); push(mk(client, "et_finals", {h}, mdl::to_lit(t))); break; }
 			case 7: push(mk(client, "et_erase_finals", {h})); break;
-			case 8: if (r.chance(1, 2)) push(mk(client, "et_clear", {h})); break;
+			case 8: if (r.chance(1, 2)) push(mk(client, "et_clear", {h})); else push(mk(client, "et_copy_from", {h, any(), long(r.below(100000)), long(r.below(3))})); break;
 			default: push(mk(client, "et_observe", {h, long(r.below(1000))})); break;
 		}
 	}
